@@ -154,6 +154,7 @@ func cmdWorker(args []string) int {
 	}
 	rep := &WorkerReport{Faults: map[string]int{}, Probes: map[string]int{}}
 	start := time.Now()
+	progress := os.Getenv("VERIF_PROGRESS") != ""
 	opt := sim.RunOpt{Race: sim.RaceEnabled}
 	seenFinding := map[string]bool{}
 	type pendingFinding struct {
@@ -178,8 +179,12 @@ func cmdWorker(args []string) int {
 		tp := sim.NewGenTapes(seed)
 		ropt := opt
 		ropt.Sample = len(rep.Samples) < 2 && n%7 == 3
+		t0 := time.Now()
 		o := sim.SafeRun(c, tp, ropt)
 		wd.Stop()
+		if progress {
+			fmt.Fprintf(os.Stderr, "PROGRESS run %d: %.0f ms steps=%d violations=%d\n", idx, time.Since(t0).Seconds()*1000, o.Steps, len(o.Violations))
+		}
 		rep.Runs++
 		if idx < *auditM && len(o.Violations) == 0 && !o.Discarded {
 			if rep.Digests == nil {
@@ -257,7 +262,11 @@ func cmdWorker(args []string) int {
 		if v.Class == "deadlock" {
 			maxEv = 120
 		}
+		t0 := time.Now()
 		small, st := sim.Shrink(c, pf.tv, id, sim.RunOpt{Race: sim.RaceEnabled}, maxEv, 40*time.Second)
+		if progress {
+			fmt.Fprintf(os.Stderr, "PROGRESS shrink %s (run %d): %.1f s, %d evals\n", id, pf.idx, time.Since(t0).Seconds(), st.Evals)
+		}
 		// final run on the minimised tapes for the materialised description
 		fo := sim.SafeRun(c, sim.ReplayTapes(small), sim.RunOpt{Race: sim.RaceEnabled, Sample: true})
 		wd2.Stop()
@@ -378,6 +387,11 @@ func cmdReplay(args []string) int {
 	wd := watchdog(120*time.Second, &what)
 	o := sim.SafeRun(c, sim.ReplayTapes(f.Tapes), sim.RunOpt{Race: sim.RaceEnabled, Sample: true, KeepLog: !*quiet})
 	wd.Stop()
+	if os.Getenv("VERIF_DUMPLOG") != "" {
+		for _, l := range o.Log {
+			fmt.Println(l)
+		}
+	}
 	if o.HarnessErr != "" {
 		fmt.Fprintln(os.Stderr, "HARNESS ERROR:", o.HarnessErr)
 		return 2
@@ -746,7 +760,13 @@ func cmdRun(args []string) int {
 	var findings []Finding
 	harness := ""
 	var mu sync.Mutex
-	for _, batch := range batches {
+	for bi, batch := range batches {
+		if bi > 0 && hasUnknownFinding(*prop, findings) {
+			// the first batch already produced findings that are not listed as known: they get
+			// minimised, confirmed and reported below; further batches would only add time
+			fmt.Println("NOTE: findings in the first batch; the remaining batches are skipped")
+			break
+		}
 		var wg sync.WaitGroup
 		for _, j := range batch {
 			wg.Add(1)
@@ -878,23 +898,6 @@ func cmdRun(args []string) int {
 		findings = append(findings, f)
 		break // one is enough: they share the cause
 	}
-	if sim.Instrumented && strings.Contains(harness, "WATCHDOG") && os.Getenv("VERIF_NO_FALLBACK") == "" {
-		// A task blocked behind the scheduler's back (a parked task holds something the
-		// instrumenter could not announce). Statement-level pre-emption is an extra; rather
-		// than failing the check, repeat it with the seam-level scheduler only.
-		fmt.Println("NOTE: a run hung under statement-level pre-emption; repeating the check with seam-level scheduling only")
-		plain := strings.TrimSuffix(self, "-i")
-		cmd := exec.Command(plain, append([]string{"run"}, args...)...)
-		cmd.Env = append(os.Environ(), "VERIF_NO_FALLBACK=1")
-		cmd.Stdout, cmd.Stderr = os.Stdout, os.Stderr
-		if err := cmd.Run(); err != nil {
-			if ee, ok := err.(*exec.ExitError); ok {
-				return ee.ExitCode()
-			}
-			return 2
-		}
-		return 0
-	}
 	wall := time.Since(start).Seconds()
 
 	// ---- classify findings -------------------------------------------------------
@@ -1021,6 +1024,23 @@ func cmdRun(args []string) int {
 		}
 	}
 
+	if violations == 0 && sim.Instrumented && strings.Contains(harness, "WATCHDOG") && os.Getenv("VERIF_NO_FALLBACK") == "" {
+		// A task blocked behind the scheduler's back (a parked task holds something the
+		// instrumenter could not announce). Statement-level pre-emption is an extra; rather
+		// than failing the check, repeat it with the seam-level scheduler only.
+		fmt.Println("NOTE: a run hung under statement-level pre-emption; repeating the check with seam-level scheduling only")
+		plain := strings.TrimSuffix(self, "-i")
+		cmd := exec.Command(plain, append([]string{"run"}, args...)...)
+		cmd.Env = append(os.Environ(), "VERIF_NO_FALLBACK=1")
+		cmd.Stdout, cmd.Stderr = os.Stdout, os.Stderr
+		if err := cmd.Run(); err != nil {
+			if ee, ok := err.(*exec.ExitError); ok {
+				return ee.ExitCode()
+			}
+			return 2
+		}
+		return 0
+	}
 	// ---- evidence -----------------------------------------------------------------
 	distinct := map[uint64]bool{}
 	for _, h := range total.Hashes {
@@ -1103,6 +1123,26 @@ func cmdRun(args []string) int {
 	}
 	fmt.Printf("OK property=%s held on everything explored\n", *prop)
 	return 0
+}
+
+// hasUnknownFinding: is there a finding that known_findings.json does not list?
+func hasUnknownFinding(prop string, fs []Finding) bool {
+	var kf knownFile
+	if b, err := os.ReadFile(filepath.Join(verifDir, "known_findings.json")); err == nil {
+		json.Unmarshal(b, &kf)
+	}
+	for _, f := range fs {
+		known := false
+		for _, k := range kf.Known {
+			if k.Property == prop && k.Class == f.Class && k.Key == f.Key {
+				known = true
+			}
+		}
+		if !known {
+			return true
+		}
+	}
+	return false
 }
 
 // hasRaceKey: does the outcome contain a race violation matching key?
